@@ -2,6 +2,7 @@ import Driver.Glob
 import Driver.Needs
 import Driver.Matrix
 import Driver.Expr
+import Driver.Sema
 
 def dispatch (line : String) : String :=
   match (line.trimAscii.toString.splitOn " ").filter (· ≠ "") with
@@ -10,6 +11,7 @@ def dispatch (line : String) : String :=
   | "matrix" :: args => Driver.Matrix.handle args
   | "lex" :: args => Driver.Expr.handleLex args
   | "parse" :: args => Driver.Expr.handleParse args
+  | "sema" :: args => Driver.SemaD.handle args
   | _ => "bad-op"
 
 partial def loop (hin : IO.FS.Stream) (hout : IO.FS.Stream) : IO Unit := do
